@@ -16,13 +16,13 @@ add("C01", "Hypothesis-generated games and RuleBasedStateMachine league historie
 add("C03", "Hypothesis metamorphic test: several encodings of one weak order must give bit-identical results (also with ONE caller-kept list object rated twice and then negated); RuleBasedStateMachine twin leagues (canonical ranks vs drawn encoding) identical after every game; symmetry anchor for mixed-type ties",
     "Exploration over generated games x weak orders x encodings (int/float/mixed/bool/huge/relatively-close floats/small ints/negative/scores/omitted) with an exact (bitwise) metamorphic oracle; history-dependent failures are saved with the cases that preceded them.",
     "Rank values restricted to finite int/float/bool; 'identical' read as bit-identical.")
-add("C14", "Hypothesis stateful machine (history independence), generated line-level thread schedules under a sys.settrace scheduler, differential across fresh child interpreters with different PYTHONHASHSEED and call order",
+add("C14", "Hypothesis stateful machine (history independence incl. earlier calls that raised part-way), generated line-level thread schedules under a sys.settrace scheduler, differential across fresh child interpreters with different PYTHONHASHSEED, call order and repetition, long-running service in a child process (recurring calls unchanged after 9 000 / 70 000 generated calls through one model)",
     "Exploration of call histories (incl. earlier out-of-range calls), identities (names, ids, aliasing, caller-modified return values), harness-owned interleavings (<= 6 preemptions, <= 4 threads, source-line and bytecode granularity, preemptions right after writes to the shared model or to module-level containers, also at cold start in fresh interpreters), hash seeds and call orders in fresh processes; every result compared bit for bit with the same call on a fresh model / in another process.",
     "Bounded preemptions (<= 6 drawn + <= 4 write-triggered) and threads (<= 4); a quarter of the schedules at bytecode granularity; free-running thread stress is only additional.")
 add("C15", "Hypothesis metamorphic/differential test: per-call option vs model constructed with that option, bit-identical, on single calls and along RuleBasedStateMachine twin-league histories (one long-lived model with per-call options vs newly constructed models)",
     "Exploration over generated games and option values (0, 0.0, 1e-300, ints, default, large; True/False) with fresh model and ratings on each side; options also passed positionally (rate and constructor) and compared with the keyword form.",
     "'Returns what ... returns' read as bit-identical (mu, sigma).")
-add("C17", "Hypothesis-generated (x, t) sweep + exhaustive +-64-ulp walks at every branch threshold vs exact 50-digit mpmath values",
+add("C17", "Hypothesis-generated (x, t) sweep + exhaustive +-64-ulp walks at every branch threshold vs exact 50-digit mpmath values; revisit of early points after 40 000 / 200 000 other evaluations (and after evaluations with wrongly typed arguments) in a fresh child process",
     "Exploration: dense generated sweep of [-40,40] x [1e-8,1e-2] with exactly the statement's bounds as oracle; ulp-neighbourhoods of each threshold enumerated exhaustively inside a case.",
     "mpmath at 50 digits taken as exact; a sweep, not an interval proof.")
 
@@ -41,7 +41,7 @@ add("C06", "Hypothesis single-call invariants + two RuleBasedStateMachine league
 add("C07", "Hypothesis invariant test: precision-weighted sum of mu changes vs a tolerance relative to the summands' magnitude, on single calls and after every game of RuleBasedStateMachine league histories",
     "Exploration over generated games (3/8 dyadic so sums are exact): the balance identity is evaluated on every output with tolerance 1e-9 of the cancelling terms plus the stated TM draw-margin term.",
     "Tolerance relative to summand magnitude (the net change is mathematically zero).")
-add("C08", "Hypothesis corner-heavy generation over the widest stated domain (incl. a second call through the same model) + RuleBasedStateMachine league histories (ratings fed back, predictions interleaved) + atheris coverage-guided fuzz target with the same oracle",
+add("C08", "Hypothesis corner-heavy generation over the widest stated domain (incl. a second call through the same model) + RuleBasedStateMachine league histories (ratings fed back, predictions and failing calls interleaved) + long-running service (one child process, one model, 9 000 / 70 000 generated calls) + atheris coverage-guided fuzz target with the same oracle",
     "Exploration: no exception and all numbers finite for rate and the three predicts on 2..8 teams x 1..16 players, sigma down to 0 (with tau), kappa down to 1e-12, scale 1e-3..1e3; libFuzzer campaign over the same structured domain.",
     "sigma=0 only with effective tau >= 1e-6 beta.")
 add("C09", "Hypothesis invariant + metamorphic tests (permutation, identical teams, single-member mu increment) on predict_win",
@@ -56,13 +56,13 @@ add("C11", "Hypothesis invariant tests on predict_rank output (exact float compa
 add("C12", "Hypothesis-generated teams vs independent 50-digit mpmath evaluation of the stated closed forms (differential oracle)",
     "Exploration: every number of the three predict operations compared to 1e-9 absolute with the closed forms written from the statement.",
     "predict_rank uses n*beta^2 also for n=2; mpmath erfinv as inverse CDF.")
-add("C13", "Exhaustive fault enumeration (all sites x fault kinds of a malformed-argument grammar) inside Hypothesis-generated valid calls; atheris target injecting grammar-built objects",
+add("C13", "Exhaustive fault enumeration (all sites x fault kinds of a malformed-argument grammar) inside Hypothesis-generated valid calls (also on models that have been through a failed call, and on lobbies with one rating object in two slots); atheris target injecting grammar-built objects",
     "Fault enumeration: for every generated valid call all faults of the grammar are injected one at a time for rate and the three predicts (also by editing an already accepted lobby in place and passing it again); oracle = exact exception type and unchanged snapshots of all reachable ratings and of the model; a libFuzzer campaign injects grammar-built objects at byte-chosen sites.",
     "Falsy ranks/scores are 'not given'; Decimal/Fraction/NaN/inf not generated.")
 add("C16", "Hypothesis metamorphic tests: rescaled and shifted copies of one game compared within the numerical budget; predictions within 1e-12",
     "Exploration over generated games x factors (2^k exact, 10^u) x shifts.",
     "Gamma family scale/shift invariant by construction; branch-boundary and out-of-range shifted cases excluded (counted).")
-add("C18", "Hypothesis-generated rating pairs (constructed equal ordinals) + exhaustive operator x operand-kind x side grid + RuleBasedStateMachine over ratings that change between comparisons",
+add("C18", "Hypothesis-generated rating pairs (constructed equal ordinals) + exhaustive operator x operand-kind x side grid + RuleBasedStateMachine over ratings that change between comparisons (assignment, rate(), rate() calls that fail part-way)",
     "Exploration of value pairs with exact oracles (is-identity of booleans), exhaustive enumeration of the foreign-operand grid inside each case, and leaderboard histories (compare, sort, update by assignment / rate(), compare again).",
     "Finite mu/sigma only.")
 add("C19", "Differential testing across the five model classes (predictions, C13 verdicts, rating-object behaviour, BT-part vs BT-full on single games and along RuleBasedStateMachine twin-league histories) + exhaustive signature comparison",
